@@ -247,7 +247,8 @@ Lemma tm_stop_sound t test st :
   run_tm false (tm_stop_guards test) t st = tm_model_stop st.
 Proof.
   intros -> Ht. destruct st as [r e c a s j rd]. unfold tm_model_stop.
-  cbn. rewrite Ht. destruct r, a; reflexivity.
+  unfold run_tm, tm_stop_tree, tm_stop_guards. cbn.
+  rewrite Ht. destruct r, a; reflexivity.
 Qed.
 
 (* stop() is idempotent: the second stop() of _run_mp's `finally` does
